@@ -133,8 +133,8 @@ def read_model_parameters(
         # if normal year
 
         # Check if the simulation in the following year does not exceed planting date.
-        mock_simulation_end_date = pd.to_datetime("1990/" + f'{sim_end_date.month}' + "/" + f'{sim_end_date.day}')
-        mock_simulation_start_date = pd.to_datetime("1990/" + crop.planting_date)
+        mock_simulation_end_date = pd.to_datetime("1992/" + f'{sim_end_date.month}' + "/" + f'{sim_end_date.day}')
+        mock_simulation_start_date = pd.to_datetime("1992/" + crop.planting_date)
         last_simulation_year_does_not_start = mock_simulation_end_date <= mock_simulation_start_date
 
         if last_simulation_year_does_not_start:
